@@ -60,6 +60,18 @@ theorem C17_upTo_err_iff (allowed : Int) (h : 0 ≤ allowed) (outs : List Resp) 
 example (n : Nat) : 0 ≤ allowedAll n ∧ 0 ≤ allowedMost n := by
   constructor <;> simp [allowedAll, allowedMost] <;> omega
 
+/-- **C17_upTo_cancel.** The cancellation clause for EVERY budget, negative ones included (ExecuteAny
+over no members has budget −1; ExecuteUpTo accepts any int), and every sequence of arrivals (so: after
+any number of completions): the loop has called `cancelFunc()` exactly if some member has failed and
+the failures so far exceed the budget - the remaining members are cancelled when the outcome "error"
+is decided, never before a failure, never on a success. -/
+theorem C17_upTo_cancel (allowed : Int) (n : Nat) (rs : List Tagged) :
+    ((upTo n allowed).after rs).cancelled = decide (0 < failuresT rs ∧ (failuresT rs : Int) > allowed) := by
+  rw [upTo_after]
+  simp only [Run.cancelled]
+  rw [exceededFrom_eq]
+  simp
+
 /-- **C17_all.** `Execute(All)` (also `Unspecified` and out-of-range strategies) fails exactly when
 some member fails, with the first failure in completion order, and reports every member's message at
 its own index. -/
